@@ -42,7 +42,7 @@ CLASSIFIERS = {}
 # operation carries every operation since the last one of these
 CONTEXT_RESETS = {"au.reset", "cl.reset", "ep.reset", "pr.reset", "sd.reset", "sg.reset", "sv.reset", "svc.reset"}
 
-ALL_EXTRACTORS = ["Basic", "Message", "Conversion", "Session", "Service", "SigGrammar", "Value", "Reader", "Encoding", "GenReaders", "Endpoint", "Stream", "Client", "Queues", "Auth", "Calls", "Signals", "Property", "Directory", "Mailbox", "IdlGrammar", "GenTypes"]
+ALL_EXTRACTORS = ["Basic", "Message", "Conversion", "Session", "Service", "SigGrammar", "Value", "Reader", "Encoding", "GenReaders", "Endpoint", "Stream", "Client", "Queues", "Auth", "Calls", "Signals", "Property", "Directory", "Mailbox", "IdlGrammar", "GenTypes", "IdlPackage"]
 
 
 def lean_string_list(path, name):
@@ -414,8 +414,9 @@ PROPS = {
     },
     "C18": {
         "level": "proof",
-        "extract": ["IdlGrammar", "SigGrammar"],
-        "extra_modules": ["QiVerif.Lemmas.Idl", "QiVerif.Lemmas.IdlLines", "QiVerif.Props.C18Lines"],
+        "extract": ["IdlGrammar", "SigGrammar", "IdlPackage"],
+        "extra_modules": ["QiVerif.Lemmas.Idl", "QiVerif.Lemmas.IdlLines", "QiVerif.Props.C18Lines", "QiVerif.Props.C18Scope",
+                          "QiVerif.Props.C18Package", "QiVerif.Tie.C18Package"],
         "rule": "type texts (600, thorough 6000: nested Vec / Map / Tuple over the 15 basic keywords, declared, undeclared and "
                 "template-named references, near-keywords such as strx / int7 / anything, empty and broken texts, white "
                 "space inside) wrapped into a package with three struct declarations and parsed by idl.ParseIDL: the "
@@ -424,16 +425,22 @@ PROPS = {
                 "groups of 1-4 action lines (as GenerateIDL writes them and as a person might: other white space, either "
                 "separator, no uid, other comments, repeated uids, uid 0, registerEvent, names such as fn / end / fnord, a "
                 "trailing separator, broken lines) parsed inside an interface by idl.ParseIDL are compared with the "
-                "model's action parser and id assignment; 150 "
+                "model's action parser and id assignment; 300 (3000) whole package texts (optional header; 1-3 interface "
+                "blocks, 0-4 struct blocks, an enum, in any order; members and parameters of nested types that refer to "
+                "declared structs - themselves and each other included -, to interfaces, enums and names nobody declares; "
+                "duplicate names, a struct named like an interface, comments after every line, a missing end, trailing "
+                "garbage, extra white space) parsed by idl.ParsePackage: every declaration with its Signature() / MetaObject() "
+                "is compared with the package parser and the scope resolution of the model; 150 "
                 "(thorough 1500) generated meta-objects (1-2 interfaces; methods with named parameters, signals, "
                 "properties; nested containers, tuples, structs shared between actions, template struct names) go "
                 "through GenerateIDL and ParseIDL and must come back with the same action ids, names and signatures; "
                 "4 (thorough 40) x 400 mutated / random IDL texts in child processes must yield a package or an error",
         "assumptions": [
-            "the line and package layers (fn / sig / prop lines, //uid: comments, struct blocks, scopes) are compared by the "
-            "struct blocks, the package header and the resolution of references in scopes are compared by the harness's own "
-            "round-trip oracle, not by a Lean model: the theorems cover the type layer (parse_print, signature_survives) and the "
-            "action lines and interface blocks (action_ok, interface_roundtrip)",
+            "the theorems cover the type layer (parse_print, signature_survives), the action lines and interface blocks "
+            "(action_ok, interface_roundtrip), the struct blocks, the header and the package (struct_ok, parsePackage_printPkg), the "
+            "resolution of references in the scope (resolve_total: it ends on every scope; resolve_declared) and their "
+            "composition (meta_object_roundtrip); the collection of the structs of a meta-object into the type set (RegisterTo, "
+            "ResolveCollision: renaming on name clashes) is not modelled: it is compared by the round-trip oracle idl.rt",
             "template struct names (Name<T>) are outside the class of the theorems and exercised by the correspondence only",
             "totality of the real parser is sampled (fuzzing in child processes); the model's parser is total by construction",
         ],
